@@ -72,10 +72,11 @@ def clean_room(mods):
     os.makedirs(room)
     dst = os.path.join(room, "lean")
     shutil.copytree(LEAN, dst, ignore=shutil.ignore_patterns(".lake"))
-    rc, out = sh(["lake", "build", "Traph", "driver", "Proofs", "Props"], cwd=dst, timeout=6000)
+    rc, out = sh(["lake", "build", "Traph", "driver", "Proofs", "Props", "Gen"], cwd=dst, timeout=6000)
     r = {"build_rc": rc, "build_out": out[-3000:] if rc != 0 else "", "checker_rc": -1, "checker_out": ""}
     if rc == 0:
-        allmods = list(mods) + ["Proofs." + x[:-5] for x in sorted(os.listdir(os.path.join(dst, "Proofs"))) if x.endswith(".lean")]
+        allmods = list(mods) + ["Proofs." + x[:-5] for x in sorted(os.listdir(os.path.join(dst, "Proofs"))) if x.endswith(".lean")] + \
+            ["Gen." + x[:-5] for x in sorted(os.listdir(os.path.join(dst, "Gen"))) if x.endswith(".lean")]
         rc3, out3 = sh(["lake", "env", "leanchecker"] + allmods, cwd=dst, timeout=6000)
         r["checker_rc"], r["checker_out"] = rc3, (out3[-2000:] if rc3 != 0 else "")
     shutil.rmtree(os.path.join(dst, ".lake"), ignore_errors=True)
@@ -130,6 +131,7 @@ def _build(tier):
     res["log"] += out[-6000:]
     res["failed_modules"] = re.findall(r"^- (\S+)$", out, flags=re.M)
     proofs_built = rc == 0
+    res["gen"] = gen = build_gen(py) if proofs_built else {"ok": False, "status": {}, "theorems": {}, "log": "proofs did not build"}
     res["forbidden"] = forbidden_hits()
     thms = property_theorems()
     res["by_property"] = thms
@@ -148,7 +150,11 @@ def _build(tier):
         f.write("".join("import %s\n" % m for m in mods))
         if proofs_built:     # every proof module in one environment: a name declared twice anywhere is an error here
             f.write("".join("import Proofs.%s\n" % x[:-5] for x in sorted(os.listdir(os.path.join(LEAN, "Proofs"))) if x.endswith(".lean")))
+        if gen.get("built"):
+            f.write("import Gen.Lifted\n")
         f.write("".join("#print axioms %s\n" % n for n in built_names))
+        if gen.get("built"):
+            f.write("".join("#print axioms Traph.Gen.%s\n" % n for n in gen["names"]))
     rc2, out2 = sh(["lake", "env", "lean", audit], cwd=LEAN)
     for m in re.finditer(r"'([^']+)' depends on axioms: \[([^\]]*)\]", out2):
         res["theorems"][m.group(1)] = [a.strip() for a in m.group(2).split(",") if a.strip()]
@@ -161,6 +167,12 @@ def _build(tier):
         pass
     if rc2 != 0:
         res["log"] += "\nAUDIT:\n" + out2[-3000:]
+    for n in gen.get("names", []):
+        full = "Traph.Gen." + n
+        if full in res["theorems"]:
+            gen["theorems"][n] = res["theorems"].pop(full)
+    gen["ok"] = bool(gen.get("built")) and all(v == "translated" for v in gen.get("status", {}).values()) and bool(gen.get("names")) and \
+        all(n in gen["theorems"] and set(gen["theorems"][n]) <= ALLOWED_AXIOMS for n in gen.get("names", []))
     bad_axioms = {n: a for n, a in res["theorems"].items() if not set(a) <= ALLOWED_AXIOMS}
     res["bad_axioms"] = bad_axioms
     res["missing"] = [n for n in names if n not in res["theorems"]]
@@ -172,6 +184,29 @@ def _build(tier):
     except Exception:
         res["ast_hashes"] = {}
     return res
+
+
+def build_gen(py):
+    """the translation tie for traph/helpers.py: regenerate lean/Gen/Helpers.lean from the source, re-check the equivalence
+    with the hand-written model (Gen/HelpersEq.lean) and the property theorems restated on the generated functions
+    (Gen/Lifted.lean).  Never fatal for the build as a whole: when it is unavailable the correspondence check carries
+    the tie alone, and the check says so."""
+    gen = {"ok": False, "built": False, "status": {}, "theorems": {}, "names": []}
+    rc, out = sh([py, os.path.join(ROOT, "gen", "gen_helpers.py")])
+    try:
+        gen["status"] = json.loads(out.strip().split("\n")[-1])
+    except Exception:
+        gen["log"] = "gen_helpers failed:\n" + out[-1200:]
+        return gen
+    rc, out = sh(["lake", "build", "Gen"], cwd=LEAN)
+    gen["built"] = rc == 0
+    if rc != 0:
+        gen["log"] = "\n".join(l for l in out.split("\n") if not l.startswith(("info:", "ℹ", "✔")))[-2500:]
+        return gen
+    for f in ("HelpersEq.lean", "Lifted.lean"):
+        text = strip_comments(open(os.path.join(LEAN, "Gen", f)).read())
+        gen["names"] += re.findall(r"^theorem\s+((?:C\d\d_source\w*)|(?:\w+_eq)|(?:chunks_iter_zero))\b", text, flags=re.M)
+    return gen
 
 
 def lean_version():
